@@ -3465,6 +3465,161 @@ class Backend:
 """
 
 
+# R8 (pairing) fields of a build record that the generator consumes position by position (`zip(de.sources, de.rename)`) are split together
+
+R8_PAIR_EXAMPLE = """
+import os
+import typing as T
+class Data:
+    sources: T.List[str]
+    install_dir: str
+    rename: T.List[str] = None
+class Backend:
+    def gen(self, d):
+        for de in self.build.get_data():
+            assert isinstance(de, build.Data)
+            for src, name in zip(de.sources, de.rename):
+                d.data.append((src, os.path.join(de.install_dir, name)))
+class Interp:
+    def split_whole(self, sources, install_dir, rename):
+        groups = {}
+        for f in sources:
+            groups.setdefault(os.path.dirname(f), []).append(f)
+        for sub, files in groups.items():
+            self.data.append(build.Data(files, os.path.join(install_dir, sub), rename))
+    def split_both(self, sources, install_dir, rename):
+        groups = {}
+        names = {}
+        for i, f in enumerate(sources):
+            groups.setdefault(os.path.dirname(f), []).append(f)
+            names.setdefault(os.path.dirname(f), []).append(rename[i])
+        for sub, files in groups.items():
+            self.data.append(build.Data(files, os.path.join(install_dir, sub), names[sub] if rename else None))
+    def split_derived(self, sources, install_dir):
+        groups = {}
+        for f in sources:
+            groups.setdefault(os.path.dirname(f), []).append(f)
+        for sub, files in groups.items():
+            self.data.append(build.Data(files, os.path.join(install_dir, sub)))
+"""
+
+
+def _annotated_fields(cls: ast.ClassDef) -> T.List[str]:
+    return [st.target.id for st in cls.body if isinstance(st, ast.AnnAssign) and isinstance(st.target, ast.Name)]
+
+
+def _zip_paired_fields(cons: Module, bmod: Module) -> T.Dict[str, T.List[T.Tuple[str, str]]]:
+    """build record class -> pairs of its fields that the generator walks in lockstep (`zip(x.f, x.g)`: element i of g belongs to element i of f)."""
+    classes = {cn: _annotated_fields(c) for cn, c in bmod.classes().items()}
+    out: T.Dict[str, T.List[T.Tuple[str, str]]] = {}
+    for q, fn in _funcs_mentioning(cons, ['zip(']).items():
+        for c in calls_in(fn):
+            if not (isinstance(c.func, ast.Name) and c.func.id == 'zip') or len(c.args) < 2 or c.keywords:
+                continue
+            if not all(isinstance(a, ast.Attribute) and isinstance(a.value, ast.Name) for a in c.args):
+                continue
+            if len({a.value.id for a in c.args}) != 1:     # type: ignore[attr-defined]
+                continue
+            base = c.args[0].value.id       # type: ignore[attr-defined]
+            attrs = [a.attr for a in c.args]     # type: ignore[attr-defined]
+            owners = [cn for cn, fs in classes.items() if all(a in fs for a in attrs)]
+            asserted: T.Set[str] = set()
+            for n in walk_no_nested(fn):
+                if isinstance(n, ast.Call) and isinstance(n.func, ast.Name) and n.func.id == 'isinstance' and len(n.args) == 2 \
+                        and isinstance(n.args[0], ast.Name) and n.args[0].id == base:
+                    for t in (n.args[1].elts if isinstance(n.args[1], ast.Tuple) else [n.args[1]]):
+                        asserted.add((attr_chain(t) or '').split('.')[-1])
+            if asserted & set(owners):
+                owners = sorted(asserted & set(owners))
+            if not owners:
+                continue       # not the fields of a build record
+            if len(owners) > 1:
+                raise Undecided(f'{q}: `{short(c)}`: the record class of `{base}` is not determined ({owners})')
+            for g in attrs[1:]:
+                if (attrs[0], g) not in out.setdefault(owners[0], []):
+                    out[owners[0]].append((attrs[0], g))
+    return out
+
+
+class Unsplit(T.NamedTuple):
+    func: str
+    call: ast.Call
+    cls: str
+    whole: str
+    split: str
+    loop: ast.For
+
+
+def _unsplit_pairs(mod: Module, bmod: Module, pairs: T.Dict[str, T.List[T.Tuple[str, str]]]) -> T.Tuple[T.List[Unsplit], int]:
+    """Constructor calls of such a record inside a loop where one field of a lockstep pair is computed from the loop item (a per-iteration
+    subset) while the other is a value that is the same in every iteration (the whole list): from the second record on the pairs no longer match."""
+    out: T.List[Unsplit] = []
+    nsites = 0
+
+    def is_ctor(c: ast.AST) -> bool:
+        return isinstance(c, ast.Call) and (attr_chain(c.func) or '').split('.')[-1] in pairs
+
+    for q, fn in _funcs_mentioning(mod, [f'{cn}(' for cn in pairs]).items():
+        for lp in [x for x in walk_no_nested(fn) if isinstance(x, ast.For)]:
+            own = [b for b in lp.body if not isinstance(b, (ast.FunctionDef, ast.AsyncFunctionDef, ast.ClassDef))]
+            ctors = [c for b in own for c in walk_no_nested(b) if is_ctor(c)]
+            if not ctors:
+                continue
+            defs: T.Dict[str, T.Set[str]] = {}
+            stored: T.Set[str] = set()
+            for b in own:
+                for st in walk_no_nested(b):
+                    if isinstance(st, ast.Assign):
+                        for x in _stored_names(ast.Tuple(elts=st.targets, ctx=ast.Store())):
+                            defs.setdefault(x, set()).update(_loaded_names(st.value))
+                    elif isinstance(st, (ast.AnnAssign, ast.AugAssign)) and st.value is not None:
+                        for x in _stored_names(st.target):
+                            defs.setdefault(x, set()).update(_loaded_names(st.value) | ({x} if isinstance(st, ast.AugAssign) else set()))
+                    elif isinstance(st, ast.For):
+                        for x in _stored_names(st.target):
+                            defs.setdefault(x, set()).update(_loaded_names(st.iter))
+                    if isinstance(st, ast.Name) and isinstance(st.ctx, (ast.Store, ast.Del)):
+                        stored.add(st.id)
+            item = _stored_names(lp.target)
+            in_ctor_args = {id(n) for c in ctors for a in list(c.args) + [k.value for k in c.keywords] for n in ast.walk(a)}
+
+            def variance(arg: ast.AST) -> str:
+                closure: T.Set[str] = set()
+                work = list(_loaded_names(arg) - _stored_names(arg))
+                while work:
+                    x = work.pop()
+                    if x not in closure:
+                        closure.add(x)
+                        work += list(defs.get(x, ()))
+                if closure & item:
+                    return 'item'
+                if closure & stored or not closure:
+                    return 'unknown'
+                for b in own:
+                    for n in ast.walk(b):
+                        if isinstance(n, ast.Name) and n.id in closure and id(n) not in in_ctor_args:
+                            return 'unknown'       # the value is also handled elsewhere in the body (it might be consumed piecewise there)
+                return 'whole'
+            for c in ctors:
+                cn = (attr_chain(c.func) or '').split('.')[-1]
+                if any(isinstance(a, ast.Starred) for a in c.args) or any(k.arg is None for k in c.keywords):
+                    raise Undecided(f'{q}: {cn}(...) is built from unpacked arguments')
+                fields = _annotated_fields(bmod.cls(cn))
+                bound: T.Dict[str, ast.AST] = {fields[i]: a for i, a in enumerate(c.args) if i < len(fields)}
+                bound.update({k.arg: k.value for k in c.keywords if k.arg})
+                for f, g in pairs[cn]:
+                    nsites += 1
+                    af, ag = bound.get(f), bound.get(g)
+                    if af is None or ag is None or any(isinstance(a, ast.Constant) and a.value is None for a in (af, ag)):
+                        continue       # the class derives the missing field from the other one, record by record
+                    vf, vg = variance(af), variance(ag)
+                    if 'unknown' in (vf, vg):
+                        raise Undecided(f'{q}: {cn}(...) in a loop over `{short(lp.iter, 50)}`: whether `{short(af, 40)}` / `{short(ag, 40)}` are per-iteration values could not be read')
+                    if vf != vg and not any(k.call is c for k in out):
+                        out.append(Unsplit(q, c, cn, g if vg == 'whole' else f, f if vg == 'whole' else g, lp))
+    return out, nsites
+
+
 def r8(ctx: RuleCtx) -> None:
     exc = U.synthetic_module('example/backends_man.py', R8C_EXAMPLE)
     exs = {s_.func: bool(s_.missing) for s_ in _name_strips(exc, _record_classes(exc))}
@@ -3517,6 +3672,35 @@ def r8(ctx: RuleCtx) -> None:
     ctx.note(f'install record classes: {", ".join(recs)}')
     if not sites:
         ctx.note('no directory-tree record with a basename component found (nothing to compare)')
+    # lockstep fields of build records (zip(de.sources, de.rename)) are split together where records are built per group
+    exp = U.synthetic_module('example/interp_pairs.py', R8_PAIR_EXAMPLE)
+    epairs = _zip_paired_fields(exp, exp)
+    eun, en = _unsplit_pairs(exp, exp, epairs)
+    if epairs != {'Data': [('sources', 'rename')]} or [(k.func, k.whole, k.split) for k in eun] != [('Interp.split_whole', 'rename', 'sources')] or en != 3:
+        raise AnalysisError(f'C11.R8 built-in example (lockstep fields) not recognised: {epairs} {eun} {en}')
+    ctx.ok('built-in example: the whole rename list handed to every per-directory record is flagged; a rename list split by the same key, and an omitted one, are clean', nontrivial=False)
+    bmod = ctx.repo.module(BUILD)
+    pairs = _zip_paired_fields(mod, bmod)
+    if not pairs:
+        raise Undecided('backends.py: no `zip(x.f, x.g)` over two fields of a build record found: how the generator pairs sources with names could not be read')
+    rels = [INTERP] + (sorted(r for r in ctx.repo.py_files('mesonbuild/modules') if r != INTERP) if ctx.thorough else [])
+    npair = 0
+    unsplit: T.List[T.Tuple[Module, Unsplit]] = []
+    for rel in rels:
+        m2 = ctx.repo.module(rel)
+        us, k_ = _unsplit_pairs(m2, bmod, pairs)
+        npair += k_
+        unsplit += [(m2, u) for u in us]
+    for m2, u in unsplit:
+        ctx.violation(m2, u.func, f'{u.cls}.{u.whole} handed over whole while {u.cls}.{u.split} is split per iteration',
+                      f'the generator pairs {u.cls}.{u.split} with {u.cls}.{u.whole} position by position (zip), but the loop over `{short(u.loop.iter, 50)}` builds one {u.cls} per iteration '
+                      f'with a per-iteration subset as `{u.split}` and the same, complete `{u.whole}` every time: every record starts again at the first entry, so the entries are assigned to the wrong files '
+                      f"(install_data('a/one.txt', 'b/two.txt', 'top.txt', rename: ['R1', 'R2', 'R3'], preserve_path: true, install_dir: 'share/p') installs share/p/a/R1, share/p/b/R1 and share/p/R1 "
+                      f'instead of a/R1, b/R2, R3)', u.call)
+    if npair == 0:
+        raise Undecided(f'no {"/".join(pairs)} record is constructed inside a loop statement: where per-directory records are built could not be read')
+    if not unsplit:
+        ctx.ok(f'{npair} lockstep field pairs ({"; ".join(f"{c}.{f}/{g}" for c, ps in pairs.items() for f, g in ps)}) at record constructors inside loops: both fields per-iteration, both whole, or one derived by the class')
 
 
 
